@@ -59,6 +59,10 @@ TECHNIQUE = "TLA+ models (TLC exhaustive, liveness, mutation controls) + spec-to
 DESIGN_REF = "extension/X02"
 
 JVM = ["-XX:+UseSerialGC", "-XX:-UseParallelGC"]
+# short runs: C1 only (halves the CPU a TLC start costs); the big thorough configs keep the full JIT
+JVM_SHORT = JVM + ["-XX:TieredStopAtLevel=1"]
+BIG = {"MC_FdReady_thorough.cfg", "MC_FdReady_live_thorough.cfg", "MC_FdAsync_thorough.cfg", "Gen_FdReady_thorough.cfg",
+       "Gen_FdReady_same_thorough.cfg"}
 
 # (module, cfg, workers) exhaustive configs; liveness configs; controls (cfg -> what must be violated)
 MC = {
@@ -66,12 +70,14 @@ MC = {
               ("FdAsync", "MC_FdAsync.cfg", 2)],
     "thorough": [("FdReady", "MC_FdReady_thorough.cfg", 4), ("FdReady", "MC_FdReady.cfg", 1),
                  ("FdReady", "MC_FdReady_tokfill.cfg", 2), ("FdReady", "MC_FdReady_same.cfg", 1),
-                 ("FdReady", "MC_FdReady_three.cfg", 1), ("FdAsync", "MC_FdAsync_thorough.cfg", 2)],
+                 ("FdReady", "MC_FdReady_three.cfg", 1), ("FdAsync", "MC_FdAsync.cfg", 1),
+                 ("FdAsync", "MC_FdAsync_thorough.cfg", 2)],
 }
+# MC_FdReady.cfg and MC_FdAsync.cfg check safety AND liveness in one run (SPECIFICATION FairSpec, INVARIANTS and
+# PROPERTIES); the configs below are liveness only
 LIVE = {
-    "quick": [("FdReady", "MC_FdReady_live.cfg", 1), ("FdAsync", "MC_FdAsync_live.cfg", 1)],
-    "thorough": [("FdReady", "MC_FdReady_live.cfg", 1), ("FdReady", "MC_FdReady_live_thorough.cfg", 3),
-                 ("FdReady", "MC_FdReady_live_same.cfg", 1), ("FdAsync", "MC_FdAsync_live.cfg", 1)],
+    "quick": [],
+    "thorough": [("FdReady", "MC_FdReady_live_thorough.cfg", 3), ("FdReady", "MC_FdReady_live_same.cfg", 1)],
 }
 CONTROLS = {
     "quick": [("FdReady", "MC_FdReady_ctl_strict.cfg", "NoErr"), ("FdReady", "MC_FdReady_ctl_cross.cfg", "NoErr"),
@@ -100,7 +106,8 @@ STRESS_RUNS = {"quick": 15, "thorough": 150}
 
 
 def _tlc(module, cfg, tier, workers=1, coverage=True, sink=None):
-    return vlib.tlc(module, cfg, workers=workers, timeout=TLC_TIMEOUT[tier], coverage=coverage, jvm=JVM, sink=sink)
+    return vlib.tlc(module, cfg, workers=workers, timeout=TLC_TIMEOUT[tier], coverage=coverage,
+                    jvm=JVM if cfg in BIG else JVM_SHORT, sink=sink)
 
 
 def _gen(module, cfg, tier, path):
